@@ -280,6 +280,9 @@ def _b_int(interp, args, kwargs):
     if isinstance(v, Num):
         if v.is_int:
             return v
+        if getattr(v, "isnan", None) is not None:
+            if interp.ctx.branch(v.isnan, "int(nan)"):
+                raise PyRaise("ValueError", "cannot convert float NaN to integer")
         # int(x) truncates toward zero
         t = z3.ToInt(v.z)
         return Num(z3.If(v.z >= 0, t, z3.If(z3.ToReal(t) == v.z, t, t + 1)), True)
@@ -799,6 +802,8 @@ def slice_bounds(interp, lo, hi, step, length):
         stz = zint(st)
         count = z3.simplify(z3.If(stop > start, (stop - start + stz - 1) / stz, 0))
     cs, cc = conc(start), conc(count)
+    if cc is None and not is_concrete_int(st):
+        cc = ctx.concretize(count)        # e.g. seq[k : k+tau+1 : tau] has exactly two elements when k + tau < len
     return (cs if cs is not None else start, cc if cc is not None else count, st)
 
 
